@@ -5,7 +5,7 @@ import S3V.Spec.SigV4Verify
 /-!
 # Findings of C05 / C06 / C10 (signature clause): kernel-checked facts about concrete requests
 
-Outside the pass/fail gate. State of the code: after the repairs b7c08fd, 4011296, 10af2bf, d4ba65c, d453cd3.
+Outside the pass/fail gate. State of the code: after the repairs b7c08fd, 4011296, 10af2bf, d4ba65c, d453cd3, a3c9b6f.
 
 * OPEN deviation (counterexamples to the FULL statements): duplicate query names with unsorted values
   (`sigv4-dup-query-unsorted`, header and presigned path) — the only remaining obstacle.
@@ -201,6 +201,75 @@ theorem spec_verifier_accepts_edge_blank_amz_headers :
       { http2 := false, authority := none, method := b!"GET", rawPath := b!"/bkt/k", rawQuery := none,
         headers := edgeHeaders edgeAuthValue, body := [], form := [], isForm := false } edgeAuthValue =
       .accept b!"AK" b!"r" b!"s3" := by decide +kernel
+
+/-! ### repaired (a3c9b6f): former class `sigv4-get-head-body`
+
+`v4_check_header_auth` no longer forces the payload line of a GET / HEAD request to the empty-string digest: the line
+follows `x-amz-content-sha256` and the body as for every other method. Regression facts on the shape of the corpus
+witness (`corpus/sigv4e2e.txt`, `w-sigv4-get-head-body`): a GET request with the body `hello` that declares and signs the
+digest of that body. The stand-in hash maps the empty string to the constant, the body to a 64-digit value and leaves the
+(long) canonical request alone, so that signatures still tell texts apart. -/
+
+def helloDigest : Bytes := b!"0123456789abcdef0123456789abcdef0123456789abcdef0123456789abcdef"
+
+def shaT : Bytes → Bytes := fun m => if m = [] then emptySha256 else if m.length ≤ 16 then helloDigest else m
+
+def getBodyHeaders (auth declared : Bytes) : List (Bytes × Bytes) :=
+  [(b!"authorization", auth), (b!"host", b!"h"), (b!"x-amz-content-sha256", declared), (b!"x-amz-date", b!"20130524T000000Z")]
+
+/-- the request as the specification sees it: the payload line is the declared digest -/
+def getBodySpecRequest (method declared : Bytes) : SigV4Spec.Request :=
+  { method, path := b!"/bkt/k", query := [], headers := getBodyHeaders [] declared, signedHeaders := edgeSigned,
+    payload := declared }
+
+def getBodySpecSig (method declared : Bytes) : Bytes :=
+  SigV4Spec.signature shaT hmacMsg b!"secret" b!"20130524T000000Z" ⟨b!"20130524", b!"r", b!"s3"⟩
+    (getBodySpecRequest method declared)
+
+def getBodyAuthValue (method declared : Bytes) : Bytes :=
+  b!"AWS4-HMAC-SHA256 Credential=AK/20130524/r/s3/aws4_request,SignedHeaders=host;x-amz-content-sha256;x-amz-date,Signature=" ++
+    getBodySpecSig method declared
+
+def ctxGetBody (method declared : Bytes) : Ctx :=
+  { http2 := false, authority := none, method, path := b!"/bkt/k", qs := [],
+    hs := getBodyHeaders (getBodyAuthValue method declared) declared,
+    body := b!"hello", bodyOnce := true, contentLength := some 5, decodedContentLength := none }
+
+/-- a GET request with a body, signed as the specification says (payload line = the digest of the body it declares), is
+    ACCEPTED by the model of the repaired code (before a3c9b6f: `.err .SignatureDoesNotMatch`, the empty-string digest was
+    signed) -/
+theorem spec_signed_get_with_body_accepted :
+    v4CheckHeaderAuth shaT hmacMsg (some look0) (ctxGetBody b!"GET" helloDigest) = .accept b!"AK" b!"r" b!"s3" := by
+  decide +kernel
+
+/-- likewise HEAD -/
+theorem spec_signed_head_with_body_accepted :
+    v4CheckHeaderAuth shaT hmacMsg (some look0) (ctxGetBody b!"HEAD" helloDigest) = .accept b!"AK" b!"r" b!"s3" := by
+  decide +kernel
+
+/-- …as the executable reference verifier written from the AWS documents always did -/
+theorem spec_verifier_accepts_get_with_body :
+    SigV4Spec.verifyHeaderAuth shaT hmacMsg look0
+      { http2 := false, authority := none, method := b!"GET", rawPath := b!"/bkt/k", rawQuery := none,
+        headers := getBodyHeaders (getBodyAuthValue b!"GET" helloDigest) helloDigest, body := b!"hello", form := [],
+        isForm := false } (getBodyAuthValue b!"GET" helloDigest) = .accept b!"AK" b!"r" b!"s3" := by decide +kernel
+
+/-- the other face of the former defect: a GET request that declares and signs the EMPTY-string digest but carries a body
+    was accepted (the body was outside the signature); now the digest of what arrives is signed and the request is
+    refused, as the reference verifier refuses it -/
+theorem get_body_outside_signature_refused :
+    v4CheckHeaderAuth shaT hmacMsg (some look0) (ctxGetBody b!"GET" emptySha256) = .err .SignatureDoesNotMatch ∧
+    SigV4Spec.verifyHeaderAuth shaT hmacMsg look0
+      { http2 := false, authority := none, method := b!"GET", rawPath := b!"/bkt/k", rawQuery := none,
+        headers := getBodyHeaders (getBodyAuthValue b!"GET" emptySha256) emptySha256, body := b!"hello", form := [],
+        isForm := false } (getBodyAuthValue b!"GET" emptySha256) =
+      .reject "x-amz-content-sha256 differs from the body digest" := by decide +kernel
+
+/-- the hypotheses of `C05_verdict_iff_declared_partial` hold on the witness shape -/
+theorem get_with_body_in_domain :
+    shaT [] = emptySha256 ∧ wfHeaderAuth (ctxGetBody b!"GET" helloDigest) = true ∧
+    SpecPayloadLine shaT (ctxGetBody b!"GET" helloDigest) helloDigest :=
+  ⟨by decide, by decide +kernel, ⟨helloDigest, by decide +kernel, by decide, Or.inr (Or.inr (by decide))⟩⟩
 
 /-! ### presigned URLs -/
 
